@@ -257,7 +257,7 @@ package fox
 //@ fun splitHost(url string) string
 //@ fun splitPath(url string) string
 //@ extern SplitHostPath pure
-//@   ensures same(host, splitHost(url)) && same(path, splitPath(url))
+//@   ensures same(host, splitHost(url)) && same(path, splitPath(url)) && len(host) <= len(url) && len(path) <= len(url) + 1
 //@ extern roundLatency pure
 //@ func (*Router).Route props C06,C05
 //@   assume-at after (*Pool).Get#1 : pool-type: dyntypeIs(call_result, *cTx)
@@ -315,36 +315,40 @@ package fox
 //@ pred txnQuiet(txn *Txn) = held[&txn.fox.mu] == old(held[&txn.fox.mu]) && lockOps[&txn.fox.mu] == old(lockOps[&txn.fox.mu]) && pubCount[&txn.fox.tree] == old(pubCount[&txn.fox.tree]) && published[&txn.fox.tree] == old(published[&txn.fox.tree])
 
 //@ func (*Txn).Has props C04,C06
+//@   requires safety-tree: heapWF() && (txn.rootTxn != nil ==> len(txn.rootTxn.root) >= verb && (forall j int :: {txn.rootTxn.root[j]} 0 <= j && j < len(txn.rootTxn.root) ==> txn.rootTxn.root[j] != nil)) && len(pattern) < 4294967294
 //@   requires txn != nil && txn.fox != nil && (txn.rootTxn != nil ==> txn.rootTxn.tree != nil)
 //@   panics-when txn.rootTxn == nil
 //@   modifies heap, released
 //@   ensures quiet: txnQuiet(txn)
 
 //@ func (*Txn).Route props C04,C06
+//@   requires safety-tree: heapWF() && (txn.rootTxn != nil ==> len(txn.rootTxn.root) >= verb && (forall j int :: {txn.rootTxn.root[j]} 0 <= j && j < len(txn.rootTxn.root) ==> txn.rootTxn.root[j] != nil)) && len(pattern) < 4294967294
 //@   assume-at after (*Pool).Get#1 : pool-type: dyntypeIs(call_result, *cTx)
 //@   assert-at call (roots).lookup#1 : own-root: arg_r == txn.rootTxn.root && arg_t == txn.rootTxn.tree
 //@   requires txn != nil && txn.fox != nil && (txn.rootTxn != nil ==> txn.rootTxn.tree != nil)
-//@   assume-at call (*cTx).resetNil#1 : pool-discipline: c != nil && c.params != nil && c.tsrParams != nil && c.skipNds != nil
+//@   assume-at call (*cTx).resetNil#1 : pool-discipline: c != nil && c.params != nil && c.tsrParams != nil && c.skipNds != nil && c.params != c.tsrParams
 //@   panics-when txn.rootTxn == nil
 //@   modifies heap, released
 //@   ensures quiet: txnQuiet(txn)
 //@   ensures own-root: txn.rootTxn == old(txn.rootTxn) && txn.rootTxn.root == old(txn.rootTxn.root) && txn.rootTxn.size == old(txn.rootTxn.size)
 
 //@ func (*Txn).Reverse props C04,C06
+//@   requires safety-tree: heapWF() && (txn.rootTxn != nil ==> len(txn.rootTxn.root) >= verb && (forall j int :: {txn.rootTxn.root[j]} 0 <= j && j < len(txn.rootTxn.root) ==> txn.rootTxn.root[j] != nil)) && len(path) < 4294967295 && len(host) < 4294967295
 //@   assume-at after (*Pool).Get#1 : pool-type: dyntypeIs(call_result, *cTx)
 //@   assert-at call (roots).lookup#1 : own-root: arg_r == txn.rootTxn.root && arg_t == txn.rootTxn.tree
 //@   requires txn != nil && txn.fox != nil && (txn.rootTxn != nil ==> txn.rootTxn.tree != nil)
-//@   assume-at call (*cTx).resetNil#1 : pool-discipline: c != nil && c.params != nil && c.tsrParams != nil && c.skipNds != nil
+//@   assume-at call (*cTx).resetNil#1 : pool-discipline: c != nil && c.params != nil && c.tsrParams != nil && c.skipNds != nil && c.params != c.tsrParams
 //@   panics-when txn.rootTxn == nil
 //@   modifies heap, released
 //@   ensures quiet: txnQuiet(txn)
 //@   ensures own-root: txn.rootTxn == old(txn.rootTxn) && txn.rootTxn.root == old(txn.rootTxn.root) && txn.rootTxn.size == old(txn.rootTxn.size)
 
 //@ func (*Txn).Lookup props C04,C06,C12
+//@   requires safety-tree: heapWF() && (txn.rootTxn != nil ==> len(txn.rootTxn.root) >= verb && (forall j int :: {txn.rootTxn.root[j]} 0 <= j && j < len(txn.rootTxn.root) ==> txn.rootTxn.root[j] != nil)) && len(r.URL.Path) < 4294967295 && len(r.URL.RawPath) < 4294967295 && len(r.Host) < 4294967295
 //@   assume-at after (*Pool).Get#1 : pool-type: dyntypeIs(call_result, *cTx)
 //@   assert-at call (roots).lookup#1 : own-root: arg_r == txn.rootTxn.root && arg_t == txn.rootTxn.tree
 //@   requires txn != nil && txn.fox != nil && r != nil && r.URL != nil && (txn.rootTxn != nil ==> txn.rootTxn.tree != nil)
-//@   assume-at call (*cTx).resetWithWriter#1 : pool-discipline: c != nil && c.params != nil && c.tsrParams != nil && c.skipNds != nil
+//@   assume-at call (*cTx).resetWithWriter#1 : pool-discipline: c != nil && c.params != nil && c.tsrParams != nil && c.skipNds != nil && c.params != c.tsrParams
 //@   panics-when txn.rootTxn == nil
 //@   modifies heap, released
 //@   ensures quiet: txnQuiet(txn)
